@@ -13,6 +13,17 @@
 // two dhts using the different protocols on their own.
 // const VUZE_DHT: (&'static str, u16) = ("dht.aelitis.com", 6881);
 
+/// Verification trace point: with `--cfg btdht_verif` records an event in the thread-local trace of
+/// `verif`, otherwise expands to nothing.
+#[cfg(btdht_verif)]
+macro_rules! vtrace {
+    ($($t:tt)*) => { crate::verif::trace(|| format!($($t)*)) };
+}
+#[cfg(not(btdht_verif))]
+macro_rules! vtrace {
+    ($($t:tt)*) => {};
+}
+
 pub mod router;
 
 mod action;
